@@ -805,7 +805,14 @@ META = {
                   'has the right assembler (race_safety, killed_only_by_kill, race_liveness); a completed entry is '
                   'never replaced by other content (completed_never_overwritten, no_inplace_writes). For compile.py '
                   'as it stands each conjunct is refuted by a schedule (recovery_refuted, race_safety_refuted, '
-                  'race_exception_refuted, completed_overwritten_refuted). The model is tied to /repo by executing '
+                  'race_exception_refuted, completed_overwritten_refuted; cold_start_refuted for check-then-create '
+                  'of MODDIR, cache_dir_exists for the idempotent mkdir). Faults.v/Local.v: recovery after every '
+                  'history of sessions alternating with external damage of any role x size class and clear-cache.py '
+                  '(fault_preserves_invariant, recovery_after_faults, race_safety_after_faults, '
+                  'recovery_every_directory), a request never touches other forms\' entries (request_is_local) and '
+                  'the complete case analysis fresh_request_outcome: returned / rebuilt / dies only on a crash-class '
+                  'prefix of its own entry (crash_class_kills, clear_during_build_refuted as sharpness). 24 theorems. '
+                  'The model is tied to /repo by executing '
                   'fault histories on real processes and comparing outcome class, directory contents and stage trace '
                   'per event with Model.predict.',
     'level_note': 'Partial: atomicity of rename(2), uniqueness of mkdtemp names, injectivity of the SHAKE digest and '
